@@ -222,6 +222,13 @@ func (d *D) load(x *ssa.UnOp) string {
 				return d.Of(sv)
 			}
 		}
+		if !d.CallIdentity {
+			// a variable assigned exactly once in this function whose address
+			// escapes (e.g. c.requestID = &requestID): for display, its value
+			if sv := onlyWholeStore(a); sv != nil {
+				return d.Of(sv)
+			}
+		}
 		if d.CallIdentity {
 			// a reassigned local: two loads are different values
 			return allocName(a) + "@" + x.Name()
